@@ -223,26 +223,45 @@ func solveObl(vc *VC, o *Obl, dir string, tier string, seed int, idx int) {
 		o.Output = "full script: " + final.result + "; without the quantified string axioms: sat (candidate counterexample)\n" + trunc(candidate.out, 6000)
 	}
 	if tier == "thorough" && decided && final.result == "unsat" {
-		// proof stability: the deciding query is re-run under two other solver seeds. A different
-		// definite answer is a contradiction (broken); a seed that no longer answers within the
-		// budget marks the proof as brittle (recorded, not a failure).
-		variant := file
-		switch {
-		case final.solver == "z3-new(qf)" && fileNQ != "":
-			variant = fileNQ
-		case fileNA != file && strings.Contains(final.out, ";NA;"):
-			variant = fileNA
-		}
-		if strings.HasPrefix(final.solver, "z3-new") {
-			for _, sd := range []int{seed + 101, seed + 202} {
-				rr := runSolver(ctx, solvers[0], variant, 30, sd)
-				o.Time += rr.time
-				if rr.result == "sat" && variant == file {
+		// proof stability: the first stage of the portfolio (all variants of the query, z3-new) is
+		// re-run under two other solver seeds with the quick budget. A seed under which no variant
+		// proves the obligation marks the proof as brittle (recorded in the evidence, not a
+		// failure); a definite `sat` on the full query is a contradiction (broken).
+		for _, sd := range []int{seed + 101, seed + 202} {
+			proved := false
+			files := []string{file}
+			if fileNA != file {
+				files = append(files, fileNA)
+			}
+			if fileNQ != "" {
+				files = append(files, fileNQ)
+			}
+			type res struct {
+				f string
+				r solveResult
+			}
+			ch := make(chan res, len(files))
+			cctx, cancel := context.WithCancel(ctx)
+			for _, f := range files {
+				go func(f string) { ch <- res{f, runSolver(cctx, solvers[0], f, 8, sd)} }(f)
+			}
+			worst := ""
+			for range files {
+				rr := <-ch
+				o.Time += rr.r.time
+				if rr.r.result == "unsat" {
+					proved = true
+					break
+				}
+				if rr.r.result == "sat" && rr.f == file {
 					o.Result = "disagree"
 					o.Output = fmt.Sprintf("z3-new says unsat under seed %d and sat under seed %d", seed, sd)
-				} else if rr.result != "unsat" {
-					o.Brittle = append(o.Brittle, fmt.Sprintf("seed %d: %s after %.1fs", sd, rr.result, rr.time))
 				}
+				worst = rr.r.result
+			}
+			cancel()
+			if !proved {
+				o.Brittle = append(o.Brittle, fmt.Sprintf("seed %d: no variant proved it within 8s (%s)", sd, worst))
 			}
 		}
 	}
